@@ -386,10 +386,25 @@ def guardStart (s : State) (n : Nat) (period : Nat) : State × Bool :=
     | none => s
   startSlot s1 (.guard n) (some (hbId n)) [] period true
 
-/-! ### `Network.disconnect` -/
+/-! ### `Network.disconnect`, `Network.__exit__`, `Network.connect` -/
 
 def disconnect (c : Cfg) (s : State) : State :=
   { stopAll s c.pdos with connected := false }
+
+/-- the ways a network is left other than by calling `disconnect()`: the end of a `with network:`
+    block, reached normally or through an exception, and `Network.__exit__` called directly without /
+    with an exception triple.  `__exit__` is `self.disconnect()` whatever its arguments (and returns
+    `None`: an exception on its way up keeps going). -/
+inductive ExitWay where
+  | withNormal
+  | withException
+  | exitNormal
+  | exitException
+deriving DecidableEq, Repr
+
+/-- `Network.connect()`: a bus is created only when there is none (`if self.bus is None`); the
+    handles of the producers are not touched -/
+def connect (s : State) : State := { s with connected := true }
 
 /-! ### histories -/
 
@@ -416,6 +431,8 @@ inductive Op where
   | guardStart (n p : Nat)
   | guardStop (n : Nat)
   | disconnect
+  | exitWith (w : ExitWay)
+  | connect
 deriving DecidableEq, Repr
 
 /-- the producer an operation addresses (operations on objects that do not exist in the network
@@ -458,6 +475,8 @@ def exec (c : Cfg) (s : State) : Op → State × Bool
   | .guardStart n p => guardStart s n p
   | .guardStop n => (guardStop s n, true)
   | .disconnect => (disconnect c s, true)
+  | .exitWith _ => (disconnect c s, true)
+  | .connect => (connect s, true)
 
 /-- one API call -/
 def step (c : Cfg) (s : State) (op : Op) : State × Bool :=
